@@ -5,7 +5,7 @@
    l1of o / l2of o = sparsity / ridge coefficient (0 when None), qp_f / qp_grad (Base/RSum.v) the
    penalised objective  v'Gv/2 - b'v + l1 sum v + l2 sum v^2  and its gradient. *)
 From Coq Require Import List Arith Reals Lra QArith Qabs.
-From TLV Require Import Base.Ops Base.Tensor Base.RSum Model.Nnls Proofs.NnlsProofs Proofs.NnlsProofsDescent Proofs.NnlsProofsNz Proofs.NnlsProofsAdmm Proofs.NnlsProofsFista Proofs.NnlsProofsFista2 Proofs.NnlsProofsAset Proofs.NnlsProofsAsetCert Proofs.NnlsProofsAsetFull Proofs.NnlsProofsExamples.
+From TLV Require Import Base.Ops Base.Tensor Base.RSum Model.Nnls Model.NnlsEntry Proofs.NnlsProofs Proofs.NnlsProofsDescent Proofs.NnlsProofsNz Proofs.NnlsProofsAdmm Proofs.NnlsProofsFista Proofs.NnlsProofsFista2 Proofs.NnlsProofsAset Proofs.NnlsProofsAsetCert Proofs.NnlsProofsAsetFull Proofs.NnlsProofsExamples Proofs.NnlsProofsConv Proofs.NnlsProofsStep Proofs.NnlsProofsEntry.
 Import ListNotations.
 Open Scope R_scope.
 
@@ -229,6 +229,101 @@ Example C13_hals_hypotheses_satisfiable :
 Proof. exact ex_all. Qed.
 
 (* ---------------------------------------------------------------------------------------------- *)
+(*  hals_nnls "run to convergence": the quantitative argument (round 5)                            *)
+(*  Notation of Proofs/NnlsProofsConv.v:                                                            *)
+(*    stepsq V j   = sum_k (UtU[k,k]/2 + ridge) (pass(V)[k,j] - V[k,j])^2   weighted squared step, column j *)
+(*    stepsq_tot V = sum_j stepsq V j ;  Phi V = sum_j objective of column j                       *)
+(*    resid W V k j = sum_l |UtU[k,l]| |W[l,j] - V[l,j]|                                            *)
+(* ---------------------------------------------------------------------------------------------- *)
+(* TELESCOPING of the sufficient decrease over M passes: the objective after M passes plus the weighted squared steps of
+   all M passes is at most the objective at the (feasible) start; induction over M *)
+Theorem C13_hals_steps_telescope : forall (UtM UtU : list (list R)) (r n : nat) (o : @hopts R),
+  wfm r r UtU -> wfm r n UtM -> h_nz o = false ->
+  (forall i j, Gf UtU i j = Gf UtU j i) ->
+  (forall k, (k < r)%nat -> Gf UtU k k <> 0 -> 0 < Gf UtU k k + 2 * l2of o) ->
+  forall (M : nat) (V : list (list R)) (j : nat), wfm r n V ->
+  (forall i j', (i < r)%nat -> (j' < n)%nat -> h_eps o <= mget Rops V i j') -> (j < n)%nat ->
+  qp_f r (Gf UtU) (bf UtM j) (l1of o) (l2of o) (colf (iterl M (hals_pass Rops UtM UtU n o) V) j)
+  + rsum M (fun m => stepsq UtM UtU r n o (iterl m (hals_pass Rops UtM UtU n o) V) j)
+  <= qp_f r (Gf UtU) (bf UtM j) (l1of o) (l2of o) (colf V j).
+Proof. exact iterates_steps_telescope. Qed.
+Print Assumptions C13_hals_steps_telescope.
+
+(* SUMMABLE STEPS: with epsilon = 0, a PSD Gram matrix and ANY KKT point X of the problem (e.g. a reference solver's
+   answer) the squared steps of all passes sum to at most Phi(V0) - Phi(X), uniformly in the number of passes: the steps
+   tend to zero *)
+Theorem C13_hals_steps_summable : forall (UtM UtU : list (list R)) (r n : nat) (o : @hopts R),
+  wfm r r UtU -> wfm r n UtM -> h_nz o = false ->
+  (forall i j, Gf UtU i j = Gf UtU j i) ->
+  (forall k, (k < r)%nat -> Gf UtU k k <> 0 -> 0 < Gf UtU k k + 2 * l2of o) ->
+  h_eps o = 0 -> 0 <= l2of o -> (forall d, 0 <= quad r (Gf UtU) d) ->
+  forall X : list (list R),
+  (forall k j, (k < r)%nat -> (j < n)%nat ->
+     0 <= mget Rops X k j /\ 0 <= qp_grad r (Gf UtU) (bf UtM j) (l1of o) (l2of o) (colf X j) k /\
+     mget Rops X k j * qp_grad r (Gf UtU) (bf UtM j) (l1of o) (l2of o) (colf X j) k = 0) ->
+  forall (M : nat) (V : list (list R)), wfm r n V ->
+  (forall i j, (i < r)%nat -> (j < n)%nat -> h_eps o <= mget Rops V i j) ->
+  rsum M (fun m => stepsq_tot UtM UtU r n o (iterl m (hals_pass Rops UtM UtU n o) V)) <= Phi UtM UtU r n o V - Phi UtM UtU r n o X.
+Proof. exact steps_summable. Qed.
+Print Assumptions C13_hals_steps_summable.
+
+(* SMALL STEP => APPROXIMATE KKT: at W = pass(V) (any V of the right shape, non-zero diagonal) entry (k,j) is feasible and
+   its KKT residuals are bounded by D = sum_l |UtU[k,l]| |W[l,j] - V[l,j]|: gradient >= -D, |(W - eps) g| <= (W - eps) D.
+   (Induction over the rows of the pass: each row update makes its own coordinate conditions exact, later updates
+   move the gradient by at most the corresponding part of D.)  D = 0 is the fixed-point theorem. *)
+Theorem C13_hals_pass_kkt_residual : forall (UtM UtU : list (list R)) (r n : nat) (o : @hopts R),
+  wfm r r UtU -> wfm r n UtM -> h_nz o = false ->
+  (forall k, (k < r)%nat -> Gf UtU k k <> 0 -> 0 < Gf UtU k k + 2 * l2of o) ->
+  (forall k, (k < r)%nat -> Gf UtU k k <> 0) ->
+  forall (V : list (list R)) (k j : nat), wfm r n V -> (k < r)%nat -> (j < n)%nat ->
+  let W := hals_pass Rops UtM UtU n o V in
+  let g := qp_grad r (Gf UtU) (bf UtM j) (l1of o) (l2of o) (colf W j) k in
+  let D := rsum r (fun l => Rabs (Gf UtU k l) * Rabs (mget Rops W l j - mget Rops V l j)) in
+  h_eps o <= mget Rops W k j /\ - D <= g /\ Rabs ((mget Rops W k j - h_eps o) * g) <= (mget Rops W k j - h_eps o) * D.
+Proof. exact pass_kkt_residual. Qed.
+Print Assumptions C13_hals_pass_kkt_residual.
+
+(* BEST-ITERATE RATE: among the first M passes from a feasible start there is one whose result W is non-negative with KKT
+   residuals D (as above, against the previous iterate) satisfying  M * w * D^2 <= (sum_l UtU[k,l]^2) (Phi(V0) - Phi(X)),
+   where w > 0 bounds the weights UtU[l,l]/2 + ridge from below and X is any KKT point: the best iterate is KKT within
+   O(1/sqrt M).  (About the BEST of the iterates, not the last one, which is what hals_nnls returns; for the last one
+   only monotonicity of the objective and the telescoped bound are proved.) *)
+Theorem C13_hals_best_iterate_kkt_rate : forall (UtM UtU : list (list R)) (r n : nat) (o : @hopts R),
+  wfm r r UtU -> wfm r n UtM -> h_nz o = false ->
+  (forall i j, Gf UtU i j = Gf UtU j i) ->
+  (forall k, (k < r)%nat -> Gf UtU k k <> 0 -> 0 < Gf UtU k k + 2 * l2of o) ->
+  (forall k, (k < r)%nat -> Gf UtU k k <> 0) ->
+  h_eps o = 0 -> 0 <= l2of o -> (forall d, 0 <= quad r (Gf UtU) d) ->
+  forall X : list (list R),
+  (forall k j, (k < r)%nat -> (j < n)%nat ->
+     0 <= mget Rops X k j /\ 0 <= qp_grad r (Gf UtU) (bf UtM j) (l1of o) (l2of o) (colf X j) k /\
+     mget Rops X k j * qp_grad r (Gf UtU) (bf UtM j) (l1of o) (l2of o) (colf X j) k = 0) ->
+  forall w : R, 0 < w -> (forall l, (l < r)%nat -> w <= Gf UtU l l / 2 + l2of o) ->
+  forall (M : nat) (V : list (list R)), (0 < M)%nat -> wfm r n V ->
+  (forall i j, (i < r)%nat -> (j < n)%nat -> h_eps o <= mget Rops V i j) ->
+  exists m, (m < M)%nat /\
+    let V' := iterl m (hals_pass Rops UtM UtU n o) V in
+    let W := iterl (S m) (hals_pass Rops UtM UtU n o) V in
+    forall k j, (k < r)%nat -> (j < n)%nat ->
+      let g := qp_grad r (Gf UtU) (bf UtM j) (l1of o) (l2of o) (colf W j) k in
+      let D := rsum r (fun l => Rabs (Gf UtU k l) * Rabs (mget Rops W l j - mget Rops V' l j)) in
+      0 <= mget Rops W k j /\ - D <= g /\ Rabs (mget Rops W k j * g) <= mget Rops W k j * D /\
+      INR M * (w * D ^ 2) <= rsum r (fun l => Gf UtU k l ^ 2) * (Phi UtM UtU r n o V - Phi UtM UtU r n o X).
+Proof. exact best_iterate_kkt. Qed.
+Print Assumptions C13_hals_best_iterate_kkt_rate.
+
+(* non-vacuity of the hypotheses of the four theorems above beyond C13_hals_hypotheses_satisfiable: the optimum of the
+   2 x 1 example in the form used here, the weight bound w = 1, and a feasible start (zero) that is NOT a fixed point *)
+Example C13_hals_rate_hypotheses_satisfiable :
+  (forall k j, (k < 2)%nat -> (j < 1)%nat ->
+     0 <= mget Rops ex_V k j /\ 0 <= qp_grad 2 (Gf ex_UtU) (bf ex_UtM j) (l1of ex_o) (l2of ex_o) (colf ex_V j) k /\
+     mget Rops ex_V k j * qp_grad 2 (Gf ex_UtU) (bf ex_UtM j) (l1of ex_o) (l2of ex_o) (colf ex_V j) k = 0) /\
+  (forall l, (l < 2)%nat -> 1 <= Gf ex_UtU l l / 2 + l2of ex_o) /\
+  wfm 2 1 ex_V0 /\ (forall i j, (i < 2)%nat -> (j < 1)%nat -> h_eps ex_o <= mget Rops ex_V0 i j) /\
+  hals_pass Rops ex_UtM ex_UtU 1 ex_o ex_V0 <> ex_V0.
+Proof. exact ex_rate_hyps. Qed.
+
+(* ---------------------------------------------------------------------------------------------- *)
 (*  hals_nnls, cold start (V = None), repaired code:                                               *)
 (*  V = clip(solve(UtU, UtM), 0); if sum(UtU*VV^T) > 0: V = V * sum(UtM*V)/sum(UtU*VV^T)           *)
 (* ---------------------------------------------------------------------------------------------- *)
@@ -335,6 +430,67 @@ Theorem C13_fista_trace_is_loop : forall (F : Type) (Op : fops F) UtM UtU n nonn
 Proof. exact @fista_trace_snd. Qed.
 Print Assumptions C13_fista_trace_is_loop.
 
+(* DESCENT of the projected gradient step (round 5): when the step is at most 1/L -- lr (d'UtU d + 2 ridge d'd) <= d'd for every
+   direction d -- the step x_new = max(x - lr gradient, eps) from a point with column j feasible lowers that column's penalised
+   objective by at least |x_new - x|^2 / (2 lr).  The first iteration of fista is this step (momentum_old = 1), so
+   fista(n_iter_max = 1) never increases the objective.  Nothing of the kind holds for the later, extrapolated iterations
+   (FISTA is not a descent method); nothing is proved about them beyond the bound >= epsilon. *)
+Theorem C13_fista_step_descent : forall (UtM UtU : list (list R)) (r n : nat) (sp rd lr eps : R),
+  wfm r r UtU -> wfm r n UtM -> (forall i j, Gf UtU i j = Gf UtU j i) -> 0 < lr ->
+  (forall d : nat -> R, lr * (quad r (Gf UtU) d + 2 * rd * rsum r (fun i => (d i)^2)) <= rsum r (fun i => (d i)^2)) ->
+  forall (V : list (list R)) (j : nat), wfm r n V -> (forall i, (i < r)%nat -> eps <= mget Rops V i j) -> (j < n)%nat ->
+  qp_f r (Gf UtU) (bf UtM j) sp rd (colf (fista_new Rops UtM UtU n true sp rd lr eps V) j)
+  <= qp_f r (Gf UtU) (bf UtM j) sp rd (colf V j)
+     - / (2 * lr) * rsum r (fun i => (mget Rops (fista_new Rops UtM UtU n true sp rd lr eps V) i j - mget Rops V i j)^2).
+Proof. exact fista_step_descent. Qed.
+Print Assumptions C13_fista_step_descent.
+
+Theorem C13_fista_first_iteration_descent : forall (UtM UtU : list (list R)) (r n : nat) (sp rd lr eps : R),
+  wfm r r UtU -> wfm r n UtM -> (forall i j, Gf UtU i j = Gf UtU j i) -> 0 < lr ->
+  (forall d : nat -> R, lr * (quad r (Gf UtU) d + 2 * rd * rsum r (fun i => (d i)^2)) <= rsum r (fun i => (d i)^2)) ->
+  forall (tol : R) (x0 : list (list R)) (beta : R) (j : nat), wfm r n x0 -> (forall i, (i < r)%nat -> eps <= mget Rops x0 i j) -> (j < n)%nat ->
+  qp_f r (Gf UtU) (bf UtM j) sp rd (colf (fista Rops UtM UtU n true sp rd lr tol eps x0 [beta]) j) <= qp_f r (Gf UtU) (bf UtM j) sp rd (colf x0 j).
+Proof. exact fista_first_iteration_descent. Qed.
+Print Assumptions C13_fista_first_iteration_descent.
+
+(* non-vacuity of the step-size hypothesis: UtU = [[2,1],[1,2]] (eigenvalues 1 and 3), ridge 0, lr = 1/3 = 1/L *)
+Example C13_fista_step_size_satisfiable : forall d : nat -> R,
+  1 / 3 * (quad 2 (Gf ex_UtU) d + 2 * 0 * rsum 2 (fun i => (d i)^2)) <= rsum 2 (fun i => (d i)^2).
+Proof. exact ex_fista_lipschitz. Qed.
+
+(* ---------------------------------------------------------------------------------------------- *)
+(*  fista: the entry point with its argument handling (Model/NnlsEntry.v, round 5)                 *)
+(* ---------------------------------------------------------------------------------------------- *)
+(* REFUTED (genuine defect, known_findings.d/C13.json: fista_ridge_coef_none): "fista returns a solution for every
+   penalisation it offers".  The docstring offers `ridge_coef : float or None`; sparsity_coef = None is read as 0, but
+   ridge_coef = None is multiplied as a number (default step, gradient) and the call raises TypeError -- modelled Err.
+   Witness: UtU = [[2,1],[1,2]], UtM = (3,-3), every other argument at its default. *)
+Theorem C13_fista_returns_refuted : exists (UtM UtU : list (list R)) (betas : list R),
+  fista_call Rops UtM UtU 1 true (Some 0) None None 3 (1 / 100000000) 0 None betas = Err /\ betas <> [].
+Proof. exact fista_call_ridge_none_witness. Qed.
+Print Assumptions C13_fista_returns_refuted.
+
+(* ... and for ANY arguments (any field): ridge_coef = None raises *)
+Theorem C13_fista_ridge_none_raises : forall (F : Type) (Op : fops F) UtM UtU n nonneg sp lr sigma tol eps x0 betas,
+  fista_call Op UtM UtU n nonneg sp None lr sigma tol eps x0 betas = Err.
+Proof. exact @fista_call_ridge_none. Qed.
+Print Assumptions C13_fista_ridge_none_raises.
+
+(* PARTIAL (the restriction that holds: ridge_coef a number): the call returns; it is `fista` on sparsity_coef (None -> 0),
+   the start (None -> zeros of UtM's shape) and the step (None -> 1 / (sigma + 2 ridge), sigma the recorded leading
+   singular value of UtU), so every theorem about `fista` above applies to the entry point; with non_negative = True and
+   at least one iteration every entry of the returned matrix is >= epsilon *)
+Theorem C13_fista_returns_partial : forall (UtM UtU : list (list R)) (r n : nat) (sp lr : option R) (rd sigma tol eps : R)
+  (x0 : option (list (list R))) (betas : list R),
+  wfm r r UtU -> wfm r n UtM -> match x0 with Some x => wfm r n x | None => True end -> betas <> [] ->
+  exists W, fista_call Rops UtM UtU n true sp (Some rd) lr sigma tol eps x0 betas = Ok W /\
+    W = fista Rops UtM UtU n true (match sp with Some s => s | None => 0 end) rd
+              (match lr with Some l => l | None => 1 / (sigma + 2 * rd) end) tol eps
+              (match x0 with Some x => x | None => zeros_like Rops UtM end) betas /\
+    forall i j, (i < r)%nat -> (j < n)%nat -> eps <= mget Rops W i j.
+Proof. exact fista_call_some. Qed.
+Print Assumptions C13_fista_returns_partial.
+
 (* fista with a LIST [A, B] as UtU and a matrix unknown (the `isinstance(UtU, list)` branch; core update of
    non_negative_tucker_hals for an order-2 core): multi_mode_dot(x, [A, B]) = A x B^T, so the gradient entry is that of
    the Kronecker-structured problem, and the fixed points of the projected step are exactly its KKT points at epsilon *)
@@ -421,6 +577,18 @@ Theorem C13_active_set_exit_kkt_partial :
        (nth i p true = false -> nth i y 0 = 0 /\ nth i (gradient Rops Utm UtU y) 0 <= tol)).
 Proof. exact active_set_exit_kkt. Qed.
 Print Assumptions C13_active_set_exit_kkt_partial.
+
+(* NON-NEGATIVITY on EVERY exit (round 5): whatever tl.solve answers (no contract needed) and however the interpolation step
+   is rounded, a vector returned by active_set_nnls -- through the termination test OR because n_iter_max ran out -- is
+   non-negative, provided the loop body ran at least once or the start was non-negative (n_iter_max = 0 returns the
+   start as it is).  Covers the exits about which C13_active_set_exit_kkt says nothing. *)
+Theorem C13_active_set_nonneg :
+  forall (solve : list (list R) -> list R -> option (list R)) (rnd : R -> R)
+         (Utm : list R) (UtU : list (list R)) (tol : R) (x0 : option (list R)) (n_iter_max : nat) (y : list R),
+  (n_iter_max <> 0%nat \/ match x0 with Some x => Forall (fun v => 0 <= v) x | None => True end) ->
+  active_set_nnls Rops solve rnd Utm UtU tol x0 n_iter_max = Some y -> Forall (fun v => 0 <= v) y.
+Proof. exact active_set_nonneg. Qed.
+Print Assumptions C13_active_set_nonneg.
 
 (* non-vacuity: the termination test is reached (flag true) from a warm and from a cold start, and a budget of one
    iteration can run out (flag false); executed at the rational instance with the exact elimination as solve *)
